@@ -1,0 +1,22 @@
+//go:build verif
+
+package gjkr
+
+import (
+	"github.com/keep-network/keep-core/pkg/net"
+	"github.com/keep-network/keep-core/pkg/protocol/state"
+)
+
+// Verification hook (build tag verif): re-exports existing identifiers only.
+
+// VerifC14InitialState builds the first state of the GJKR state chain exactly as
+// Execute does.
+func VerifC14InitialState(
+	channel net.BroadcastChannel,
+	member *LocalMember,
+) state.SyncState {
+	return &ephemeralKeyPairGenerationState{
+		channel: channel,
+		member:  member.InitializeEphemeralKeysGeneration(),
+	}
+}
